@@ -53,7 +53,7 @@ def gen(rng, tier, k):
     hist = charts.gen_history(rng, n=rng.choice([0, 1, 1, 2, 3]))
     via_file = sg in ("osu", "qua") and rng.random() < 0.15
     merge = name == "O2JToSM" and rng.random() < 0.4
-    shift = rng.choice([None, None, 0, 1, 2]) if tg == "bms" and sg != "sm" else None
+    shift = rng.choice([None, None, 0, 1, 2, -1]) if tg == "bms" and sg != "sm" else None
     lenient = rng.random() < 0.5
     if rng.random() < 0.25:
         # holds that end where they start are holds all the same: a converter may not turn them into hits or drop them
